@@ -91,6 +91,10 @@ def run_tracker(chk, replay):
         sim, st3 = vf.tlc_simulate("IqTrackerGen.tla", "IqTrackerGenSim.cfg", num=150 if quick else 1500, depth=14 if quick else 24,
                                    seed=chk.seed, workers=TLC_WORKERS)
         allp, st5 = vf.tlc_gen("IqTrackerGen.tla", "IqTrackerGenAll.cfg" if quick else "IqTrackerGenAll7.cfg")
+        if not quick and len(allp) > 10000:      # seeded sample: stay inside the thorough budget
+            st5["replayed"] = 10000
+            random.Random(chk.seed + 2).shuffle(allp)
+            allp = allp[:10000]
         idp, st6 = vf.tlc_gen("IqTrackerGen.tla", "IqTrackerGenIds.cfg")
         # session histories: every sequence of openings / closings (up to 6, thorough 7 events) with one request sent at any
         # position, negotiated the classic way (SASL, bind, <enable/>, <resume/>) and once more with SASL 2 / bind 2 / inline
